@@ -76,6 +76,65 @@ def _hand_relations_in_reported_order(eqsys, name):
     return [(k, hand[k]) for k in reported]
 
 
+def _may_be(v, a, b):
+    """is entry `a` the expression `b`?  Only used to CHOOSE which entry of a residual vector is compared with which expected equation (the claim itself
+    is made by v.prove_identity on the chosen pair, so a wrong answer here can only lose a match, never grant one).  Symbolic run: the exact field
+    identity that prove_identity tries first (back end `ring`); sampled run: equal to rounding at this sample"""
+    try:
+        if v.symbolic:
+            from pyvc.realalg import Normaliser
+            from pyvc.sym import to_z3
+            return bool(Normaliser().equal(to_z3(a + 0.0, "real"), to_z3(b + 0.0, "real")))
+        return bool(SP.approx_eq(float(a), float(b), 1e-9, 1e-12))
+    except BaseException as ex:
+        if isinstance(ex, (KeyboardInterrupt, SystemExit)):
+            raise
+        return False
+
+
+def _pair_off(v, entries, wants):
+    """one-to-one assignment {index of expected equation: index of entry} (augmenting paths; the entry at the same position is tried first, so on a
+    residual vector in the hand-written order no other pair is even looked at).  An expected equation that no free entry matches gets one of the
+    entries that are left over (same position if free), so that its obligation is still stated -- and refuted; None if no entry is left at all"""
+    memo, owner = {}, {}
+
+    def fits(w, p):
+        if (w, p) not in memo:
+            memo[(w, p)] = _may_be(v, entries[p], wants[w])
+        return memo[(w, p)]
+
+    def place(w, seen):
+        for p in ([w] if w < len(entries) else []) + [q for q in range(len(entries)) if q != w]:
+            if p not in seen and fits(w, p):
+                seen.add(p)
+                if p not in owner or place(owner[p], seen):
+                    owner[p] = w
+                    return True
+        return False
+    for w in range(len(wants)):
+        place(w, set())
+    pairing = {w: p for p, w in owner.items()}
+    free = [p for p in range(len(entries)) if p not in owner]
+    for w in range(len(wants)):
+        if w not in pairing:
+            pairing[w] = free.pop(free.index(w) if w in free else 0) if free else None
+    return pairing
+
+
+def _each_expected_equation_is_exactly_one_entry(v, entries, expected):
+    """`expected` = [(obligation name, expression)].  The property speaks of the equations of a formulation (which vanish exactly at equilibrium) and of
+    their NUMBER, not of the order in which the residual vector lists them (the root finder does not care either): the entries are, as a multiset, the
+    expected equations -- each expected equation is matched to exactly one entry and no entry is used twice (with the separate length obligation: a
+    bijection).  The obligation of an expected equation is the identity 'its entry == the hand-derived expression' for all inputs"""
+    entries = list(entries)
+    pairing = _pair_off(v, entries, [e for _n, e in expected])
+    for w, (nm, want) in enumerate(expected):
+        if pairing[w] is None:
+            v.prove(nm, False, detail="%d entries for %d expected equations: none left for this one" % (len(entries), len(expected)))
+        else:
+            v.prove_identity(nm, entries[pairing[w]] + 0.0, want + 0.0)
+
+
 def build(v, name):
     from chempy.chemistry import Equilibrium
     from chempy.equilibria import EqSystem
@@ -124,10 +183,8 @@ def _residual(name):
         # --- linear formulation
         f = v.call(NumSysLin(eqsys, backend=math).f, y, params)
         v.prove("lin.length_is_nr_plus_conservation_relations", len(f) == nr + nk)
-        for i in range(nr):
-            v.prove_identity("lin.equil_%d_is_Q_over_K_minus_1" % i, f[i], spec_Q(eqs, conc, i) / Ks[i] - 1)
-        for c in range(nk):
-            v.prove_identity("lin.conservation_key%d" % keys[c], f[nr + c] + 0.0, cons[c] + 0.0)
+        _each_expected_equation_is_exactly_one_entry(v, f, [("lin.equil_%d_is_Q_over_K_minus_1" % i, spec_Q(eqs, conc, i) / Ks[i] - 1) for i in range(nr)]
+                                                     + [("lin.conservation_key%d" % keys[c], cons[c]) for c in range(nk)])
         if v.symbolic:
             at_eq = SP.conj([spec_Q(eqs, conc, i) == Ks[i] for i in range(nr)] + [x == 0 for x in cons])
             v.prove("lin.zero_iff_equilibrium_and_conserving", SP.iff(SP.conj([x == 0 for x in f]), at_eq))
@@ -137,14 +194,12 @@ def _residual(name):
         fs = v.call(NumSysSquare(eqsys, backend=math).f, z, params)
         fl = v.call(NumSysLin(eqsys, backend=math).f, [zi * zi for zi in z], params)
         v.prove("square.length", len(fs) == nr + nk)
-        for i in range(nr + nk):
-            v.prove_identity("square.entry_%d_is_lin_of_squares" % i, fs[i] + 0.0, fl[i] + 0.0)
+        # (proof aid: the equations of the linear formulation at c = z^2, whichever way either vector is ordered)
+        _each_expected_equation_is_exactly_one_entry(v, fs, [("square.entry_%d_is_lin_of_squares" % i, fl[i]) for i in range(min(nr + nk, len(fl)))])
         # and directly against the specification with c = z^2 (either sign of z)
         csq = dict(zip(subs, [zi * zi for zi in z]))
-        for i in range(nr):
-            v.prove_identity("square.equil_%d_is_Q_of_squares_over_K_minus_1" % i, fs[i], spec_Q(eqs, csq, i) / Ks[i] - 1)
-        for c in range(nk):
-            v.prove_identity("square.conservation_key%d_of_squares" % keys[c], fs[nr + c] + 0.0, sum(B[c][j] * (z[j] * z[j] - y0[j]) for j in range(len(subs))) + 0.0)
+        _each_expected_equation_is_exactly_one_entry(v, fs, [("square.equil_%d_is_Q_of_squares_over_K_minus_1" % i, spec_Q(eqs, csq, i) / Ks[i] - 1) for i in range(nr)]
+                                                     + [("square.conservation_key%d_of_squares" % keys[c], sum(B[c][j] * (z[j] * z[j] - y0[j]) for j in range(len(subs)))) for c in range(nk)])
         # --- logarithmic variables
         be = v.backend()
         ly = [v.real("ly_" + s, lo=-10, hi=3) for s in subs]
@@ -152,10 +207,8 @@ def _residual(name):
         v.prove("log.length", len(flog) == nr + nk)
         A = HAND[name]["A"]
         v.prove("system_reports_the_hand_written_stoichiometry", _same_matrix(eqsys.stoichs(), A))
-        for i in range(nr):
-            v.prove_identity("log.equil_%d" % i, flog[i], sum(int(A[i][j]) * ly[j] for j in range(len(subs))) - be.log(Ks[i]))
-        for c in range(nk):
-            v.prove_identity("log.conservation_key%d" % keys[c], flog[nr + c] + 0.0, sum(B[c][j] * (be.exp(ly[j]) - y0[j]) for j in range(len(subs))) + 0.0)
+        _each_expected_equation_is_exactly_one_entry(v, flog, [("log.equil_%d" % i, sum(int(A[i][j]) * ly[j] for j in range(len(subs))) - be.log(Ks[i])) for i in range(nr)]
+                                                     + [("log.conservation_key%d" % keys[c], sum(B[c][j] * (be.exp(ly[j]) - y0[j]) for j in range(len(subs)))) for c in range(nk)])
     return _
 
 
@@ -209,24 +262,22 @@ def _(v):
     ns = NumSysLin(eqsys, backend=math)
     v.call(ns.f, y, list(y0a) + list(Ks))
     f2 = v.call(ns.f, y, list(y0b) + list(K2))
-    for i in range(nr):
-        v.prove_identity("lin.second_call_uses_current_constants_%d" % i, f2[i], spec_Q(eqs, conc, i) / K2[i] - 1)
-    for c in range(len(keys)):
-        v.prove_identity("lin.second_call_uses_current_initial_state_key%d" % keys[c], f2[nr + c] + 0.0, sum(B[c][j] * (y[j] - y0b[j]) for j in range(len(subs))) + 0.0)
+    cons_b = [sum(B[c][j] * (y[j] - y0b[j]) for j in range(len(subs))) for c in range(len(keys))]
+    _each_expected_equation_is_exactly_one_entry(v, f2, [("lin.second_call_uses_current_constants_%d" % i, spec_Q(eqs, conc, i) / K2[i] - 1) for i in range(nr)]
+                                                 + [("lin.second_call_uses_current_initial_state_key%d" % keys[c], cons_b[c]) for c in range(len(keys))])
     be = v.backend()
     nl = NumSysLog(eqsys, backend=be)
     v.call(nl.f, y, list(y0a) + list(Ks))
     g2 = v.call(nl.f, y, list(y0b) + list(K2))
     A = HAND["ammonia"]["A"]
-    for i in range(nr):
-        v.prove_identity("log.second_call_uses_current_constants_%d" % i, g2[i], sum(int(A[i][j]) * y[j] for j in range(len(subs))) - be.log(K2[i]))
+    # (only the equations that contain the constants are expected here: the remaining entries, the conservation equations of the logarithmic form, are
+    # stated in residuals.ammonia)
+    _each_expected_equation_is_exactly_one_entry(v, g2, [("log.second_call_uses_current_constants_%d" % i, sum(int(A[i][j]) * y[j] for j in range(len(subs))) - be.log(K2[i])) for i in range(nr)])
     # constants taken from the system itself when no parameters are passed (new_eq_params=False): all ns initial concentrations are used
     ns3 = NumSysLin(eqsys, backend=math, new_eq_params=False)
     f3 = v.call(ns3.f, y, list(y0b))
-    for c in range(len(keys)):
-        v.prove_identity("lin.stored_constants_mode_uses_all_initial_concentrations_key%d" % keys[c], f3[nr + c] + 0.0, sum(B[c][j] * (y[j] - y0b[j]) for j in range(len(subs))) + 0.0)
-    for i in range(nr):
-        v.prove_identity("lin.stored_constants_mode_equil_%d" % i, f3[i], spec_Q(eqs, conc, i) / Ks[i] - 1)
+    _each_expected_equation_is_exactly_one_entry(v, f3, [("lin.stored_constants_mode_equil_%d" % i, spec_Q(eqs, conc, i) / Ks[i] - 1) for i in range(nr)]
+                                                 + [("lin.stored_constants_mode_uses_all_initial_concentrations_key%d" % keys[c], cons_b[c]) for c in range(len(keys))])
 
 
 def _exact_equilibrium(name):
